@@ -16,7 +16,7 @@ func init() { core.Register(c04{}) }
 func (c04) ID() string    { return "C04" }
 func (c04) Level() string { return "fault_enumeration" }
 func (c04) Rule() string {
-	return "cases = workloads of batches (1..60 staged puts/deletes with repeats, values up to 2 blocks, every 3rd batch larger than DataFileSize so that it is flushed in pieces across files, Sync and non-Sync) between plain writes; crash images (process death, partial write, power loss; machinery of C03) are taken at every hooked I/O event and at the named points commit.afterFlush/commit.afterSeal while a batch is in flight and during the operation following it; a reopened image must dump to the state before or after the whole batch (atomicity), power-loss images taken after a Sync batch returned must contain it (d computed from durable offsets incl. the sealing record); after the crash phase the history continues with 3 clean restarts, further writes and a merge, each followed by a full dump vs model (durability). Non-trivial: >=1 batch flushed in >=2 writes and >=30 images; distinct = hash of (config, op list)"
+	return "cases = workloads of batches (1..60 staged puts/deletes with repeats, values up to 2 blocks, every 3rd batch larger than DataFileSize so that it is flushed in pieces across files, Sync and non-Sync) between plain writes; crash images (process death, partial write, power loss; machinery of C03) are taken at every hooked I/O event and at the named points commit.afterFlush/commit.afterSeal while a batch is in flight and during the operation following it; a reopened image must dump to the state before or after the whole batch (atomicity), and must stay correct when it is used further (put, another committed batch, Sync, clean restart, second crash: the records of a batch that died must never come back), power-loss images taken after a Sync batch returned must contain it (d computed from durable offsets incl. the sealing record); after the crash phase the history continues with 3 clean restarts, further writes and a merge, each followed by a full dump vs model (durability). Non-trivial: >=1 batch flushed in >=2 writes and >=30 images; distinct = hash of (config, op list)"
 }
 func (c04) Assumptions() []string {
 	return []string{"same image model as C03", "the issuing goroutine calls only Batch methods while the batch is open"}
